@@ -219,6 +219,13 @@ KEYWORDS = [
     G('kw-list', [Rule('M', Plus(A(S(Str('a'), Asg('xs', '+=', ID)), S(Str('ab'), Asg('ys', '+=', INT)))))], tags=['kw']),
     G('kw-sep', [Rule('M', Asg('xs', '+=', INT, sep=Str('and')))], tags=['kw']),
     G('kw-regex', [Rule('M', S(Str('b'), Asg('h', '=', Re(r'x[a-c]+')), Opt(Str('end'))))], tags=['kw']),
+    # regex literals made of plain characters only: under ignore_case the value is the text as written in the input
+    G('kw-plain-regex', [Rule('M', S(Str('w'), Asg('u', '=', Re(r'kg')), Opt(S(Str('x'), Asg('m', '=', Ref('Unit')))))),
+                         Rule('Unit', Re(r'lb'))], tags=['kw']),
+    # keyword matching does not depend on the other parser settings of the metamodel
+    G('kw-global-noskipws', [Rule('M', S(Str('in'), Opt(Str(' ')), Asg('x', '=', ID), Opt(S(Str(' '), Str('to')))))],
+      tags=['kw'], skipws=False),
+    G('kw-global-ws-memo', [Rule('M', S(Str('in'), Asg('x', '=', ID), Opt(Str('to'))))], tags=['kw'], ws=' ', memoization=True),
     G('kw-unicode', [Rule('M', S(Str('é'), Asg('x', '=', ID)))], tags=['kw']),
     G('kw-escaped', [Rule('M', S(Str('fi', spelling='f\\x69'), Asg('x', '=', ID),
                                  Opt(S(Str('é', spelling='\\u00e9'), Asg('y', '=', ID)))))], tags=['kw']),
